@@ -1,5 +1,6 @@
 import SafeNet.Base.Sha3
 import SafeNet.Proofs.Wire
+import SafeNet.Proofs.WireCbor
 /-!
 # C12 — record and message encodings round-trip and stay wire-stable
 
@@ -7,6 +8,11 @@ Statements over `SafeNet.Base.MsgPack` (the MessagePack subset `rmp`/`rmp_serde`
 (serde-tree ↔ MessagePack embedding, record header, records, chunks) and the tables `rs2lean` regenerates from
 `ant-protocol/src/storage/{header,chunks}.rs` (`SafeNet.Gen.Wire`: `serTag`, `deTag`, `headerSize`, …).
 Helper lemmas live in `SafeNet.Proofs.MsgPack` and `SafeNet.Proofs.Wire`.
+
+Network MESSAGES (`Request` / `Response`) do not travel as MessagePack but through libp2p `request_response::cbor`
+(`cbor4ii`): their real wire format is modelled in `SafeNet.Base.Cbor` + `SafeNet.Model.WireCbor` and the statements about
+it are in the section "messages travel as CBOR" below (helper lemmas: `SafeNet.Proofs.Cbor`, `SafeNet.Proofs.WireCbor`;
+generated constants: `SafeNet.Gen.WireCodec`, `SafeNet.Gen.WireShape`).
 -/
 namespace SafeNet.Props.C12
 open SafeNet.MsgPack SafeNet.Wire SafeNet.Gen.Wire
@@ -107,9 +113,13 @@ theorem chunk_addr_is_sha3 (c : Chunk) (hv : c.value.length < 4294967296 ∧ isB
       d.address = SafeNet.Sha3.hashBytes c.value ∧ d.address.length = 32 ∧ d.value = c.value :=
   ⟨_, chunk_addr_recomputed _ c hv, rfl, SafeNet.Sha3.hashBytes_length _, rfl⟩
 
-/-- **decode_total / errors instead of crashes** (model half; the implementation half is the correspondence run
-under `catch_unwind`): the decoders are total functions, and truncated or unknown-kind input is an error:
-fewer than `SIZE + 1` bytes have no header, an unknown tag is rejected, a record of at most `SIZE` bytes has no value. -/
+/-- **decode_total / errors instead of crashes**.  What is PROVED here concerns the model: truncated or unknown-kind input is
+an error of the model decoders — fewer than `SIZE + 1` bytes have no header, an unknown tag (in the canonical fixint
+spelling; every other spelling the window admits is `unknown_tag_every_spelling`) is rejected, a record of at most `SIZE`
+bytes has no value.  The 4th conjunct is only the MODEL HALF of "never crashes": `decode` is a total Lean function, so it
+says nothing about the Rust by itself.  The implementation half — the real decoders return `Err` and do not panic on the
+same inputs — is not a theorem: it is the correspondence run (every `dec` / `recdec` / `hdrdec` / `hdrtry` / `ischunk` line
+executed under `catch_unwind`, a panic being printed as `panic` and never matched by the model). -/
 theorem decode_total :
     (∀ bs : List Nat, bs.length < headerSize + 1 → fromRecord bs = none) ∧
     (∀ tag b rest, 8 ≤ tag → tag < 128 → fromRecord (0x91 :: tag :: b :: rest) = none) ∧
@@ -134,6 +144,46 @@ theorem decode_total :
     cases h : decode bs with
     | none => exact Or.inl rfl
     | some p => exact Or.inr ⟨p.1, p.2, rfl⟩
+
+/-- **unknown_tag_every_spelling** (completes `decode_total`'s 2nd conjunct): an unknown tag is rejected in EVERY spelling
+the 3-byte window admits, not only as a fixint — as a `u8` (`0x91 0xcc tag`), as an `i8` (`0x91 0xd0 tag`, where values
+`≥ 0x80` are negative and rejected whatever they are), as a 1-byte `bin` (`0xc4 0x01 tag`) and in the map form
+(`0x81 0x00 tag`); the chunk test errs on all of them. -/
+theorem unknown_tag_every_spelling (tag : Nat) (rest : List Nat) (h8 : 8 ≤ tag) (h : tag < 256) :
+    fromRecord (0x91 :: 0xcc :: tag :: rest) = none ∧ fromRecord (0x91 :: 0xd0 :: tag :: rest) = none ∧
+    fromRecord (0xc4 :: 1 :: tag :: rest) = none ∧ fromRecord (0x81 :: 0 :: tag :: rest) = none ∧
+    isChunk (0x91 :: 0xcc :: tag :: rest) = none ∧ isChunk (0x91 :: 0xd0 :: tag :: rest) = none := by
+  have hd : deTag tag = none := by
+    match tag with
+    | 0 | 1 | 2 | 3 | 4 | 5 | 6 | 7 => omega
+    | n + 8 => simp [deTag]
+  have a : fromRecord (0x91 :: 0xcc :: tag :: rest) = none := by
+    simp [fromRecord, headerWindow, headerSize, headerFromWindow, tagKind, hd]
+  have b : fromRecord (0x91 :: 0xd0 :: tag :: rest) = none := by
+    simp [fromRecord, headerWindow, headerSize, headerFromWindow, tagKind, hd]
+  refine ⟨a, b, ?_, ?_, ((is_chunk_spec _).1).mpr a, ((is_chunk_spec _).1).mpr b⟩
+  · simp [fromRecord, headerWindow, headerSize, headerFromWindow, tagKind, hd]
+  · simp [fromRecord, headerWindow, headerSize, headerFromWindow, tagKind, hd]
+
+/-- **record_schemas_ok**: every schema of a record payload — the type stored under each of the eight kinds, its parts, the
+header — is a well-formed schema (no `Option` around a type that can itself serialise to nil), so the typed round trip
+applies to all of them. -/
+theorem record_schemas_ok :
+    (∀ k, schemaOk (payloadSchema k) = true) ∧
+    schemaOk recordHeader = true ∧ schemaOk chunk = true ∧ schemaOk scratchpad = true ∧ schemaOk transaction = true ∧
+    schemaOk signedRegister = true ∧ schemaOk register = true ∧ schemaOk registerOp = true ∧ schemaOk permissions = true ∧
+    schemaOk proofOfPayment = true ∧ schemaOk paymentQuote = true ∧ schemaOk quotingMetrics = true ∧
+    schemaOk networkAddress = true ∧ schemaOk recordType = true := by
+  refine ⟨fun k => by cases k <;> decide +kernel, ?_, ?_, ?_, ?_, ?_, ?_, ?_, ?_, ?_, ?_, ?_, ?_, ?_⟩ <;> decide +kernel
+
+/-- **record_roundtrip_every_kind**: for EVERY record kind — including `Register` and `RegisterWithPayment`, whose payload
+is a `SignedRegister` (base register, owner signature, set of signed ops over Merkle-register nodes) — a value of the type
+the node stores under that kind, serialised with the kind's tag and deserialised, yields the same value and the same kind. -/
+theorem record_roundtrip_every_kind (k : RecordKind) (t : Tree) (hc : conforms (payloadSchema k) t = true)
+    (hw : treeWf t = true) :
+    fromRecord (trySerializeRecord (toVal t) k) = some k ∧
+    (tryDeserializeRecord (trySerializeRecord (toVal t) k)).bind (ofVal (payloadSchema k)) = some t :=
+  record_roundtrip_typed k (payloadSchema k) t (record_schemas_ok.1 k) hc hw
 
 /-! ## truncation, injectivity, canonical forms, wire stability -/
 
@@ -301,8 +351,10 @@ theorem schemas_tied :
     structTied struct_RecordHeader recordHeader = true ∧ structTied struct_PaymentQuote paymentQuote = true ∧
     structTied struct_ProofOfPayment proofOfPayment = true ∧ structTied struct_QuotingMetrics quotingMetrics = true ∧
     structTied struct_Scratchpad scratchpad = true ∧ structTied struct_Transaction transaction = true ∧
-    structTied struct_RegisterAddress registerAddress = true ∧ structTied struct_ScratchpadAddress scratchpadAddress = true := by
-  refine ⟨?_, ?_, ?_, ?_, ?_, ?_, ?_, ?_, ?_, ?_, ?_, ?_, ?_, ?_, ?_, ?_, ?_⟩ <;> decide
+    structTied struct_RegisterAddress registerAddress = true ∧ structTied struct_ScratchpadAddress scratchpadAddress = true ∧
+    enumTied enum_Permissions permissions = true ∧ structTied struct_Register register = true ∧
+    structTied struct_SignedRegister signedRegister = true ∧ structTied struct_RegisterOp registerOp = true := by
+  refine ⟨?_, ?_, ?_, ?_, ?_, ?_, ?_, ?_, ?_, ?_, ?_, ?_, ?_, ?_, ?_, ?_, ?_, ?_, ?_, ?_, ?_⟩ <;> decide
 
 /-- **wire_names_fixed**: the names that travel on the wire are the ones nodes use today — variant names of the address
 and message enums (any declaration order), field names of the struct variants and of the structs that travel inside
@@ -331,8 +383,11 @@ theorem wire_names_fixed :
     struct_RegisterAddress = ["meta", "owner"] ∧ struct_ScratchpadAddress = ["owner"] ∧
     struct_Scratchpad = ["address", "data_encoding", "encrypted_data", "counter", "signature"] ∧
     struct_Transaction = ["owner", "parents", "content", "outputs", "signature"] ∧
-    struct_ProofOfPayment = ["peer_quotes"] ∧ struct_RecordHeader = ["kind"] := by
-  refine ⟨?_, ?_, ?_, ?_, ?_, ?_, ?_, ?_, ?_, ?_, ?_, ?_, ?_, ?_, ?_, ?_⟩ <;> decide
+    struct_ProofOfPayment = ["peer_quotes"] ∧ struct_RecordHeader = ["kind"] ∧
+    sameVariants enum_Permissions [("AnyoneCanWrite", .unit), ("Writers", .newtype)] = true ∧
+    struct_Register = ["address", "permissions"] ∧ struct_SignedRegister = ["register", "signature", "ops"] ∧
+    struct_RegisterOp = ["address", "crdt_op", "source", "signature"] := by
+  refine ⟨?_, ?_, ?_, ?_, ?_, ?_, ?_, ?_, ?_, ?_, ?_, ?_, ?_, ?_, ?_, ?_, ?_, ?_, ?_, ?_⟩ <;> decide
 
 end Shapes
 
@@ -354,6 +409,245 @@ theorem variant_names_separate (n n' : List Nat) (t t' : Tree) (hn : nameOk n = 
   have e := SafeNet.MsgPack.encode_injective _ _ (toVal_wf _ hw) (toVal_wf _ hw') h
   simp only [toVal, Val.map.injEq, List.cons.injEq, Prod.mk.injEq, Val.str.injEq, and_true] at e
   exact e
+
+/-! ## messages travel as CBOR (libp2p `request_response::cbor` = `cbor4ii::serde`) -/
+
+section Messages
+open SafeNet.WireCbor SafeNet.Gen.WireCodec SafeNet.Gen.WireShape
+
+/-- **cbor_decode_encode**: decoding the shortest-form CBOR encoding of any well-formed item gives the item back together
+with exactly the bytes that followed it (`cbor4ii::serde::from_slice` does not look past the value). -/
+theorem cbor_decode_encode (v : SafeNet.Cbor.Val) (rest : List Nat) (hw : SafeNet.Cbor.WellFormed v) :
+    SafeNet.Cbor.decode (SafeNet.Cbor.encode v ++ rest) = some (v, rest) :=
+  SafeNet.Cbor.decode_encode v rest hw
+
+/-- **cbor_prefix_rejected**: this CBOR subset is prefix-free on well-formed items — no strict prefix of an encoding decodes. -/
+theorem cbor_prefix_rejected (v : SafeNet.Cbor.Val) (hw : SafeNet.Cbor.WellFormed v) (n : Nat)
+    (hn : n < (SafeNet.Cbor.encode v).length) : SafeNet.Cbor.decode ((SafeNet.Cbor.encode v).take n) = none :=
+  SafeNet.Cbor.prefix_rejected v hw n hn
+
+theorem cbor_encode_injective (v w : SafeNet.Cbor.Val) (hv : SafeNet.Cbor.WellFormed v) (hw : SafeNet.Cbor.WellFormed w)
+    (h : SafeNet.Cbor.encode v = SafeNet.Cbor.encode w) : v = w :=
+  SafeNet.Cbor.encode_injective v w hv hw h
+
+theorem cbor_encode_append_injective (v w : SafeNet.Cbor.Val) (r s : List Nat) (hv : SafeNet.Cbor.WellFormed v)
+    (hw : SafeNet.Cbor.WellFormed w) (h : SafeNet.Cbor.encode v ++ r = SafeNet.Cbor.encode w ++ s) : v = w ∧ r = s :=
+  SafeNet.Cbor.encode_append_injective v w r s hv hw h
+
+/-- **cbor_shortest_argument**: the argument (an integer's value, a length) always takes the shortest of the five widths —
+immediate below 24, then 1, 2, 4, 8 bytes — as `cbor4ii`'s `TypeNum<u64>::encode` chooses it; the initial byte is
+`major << 5 | info`. -/
+theorem cbor_shortest_argument (major n : Nat) :
+    (SafeNet.Cbor.encodeArg major n).length =
+      (if n < 24 then 1 else if n < 256 then 2 else if n < 65536 then 3 else if n < 4294967296 then 5 else 9) ∧
+    (SafeNet.Cbor.encodeArg major n).head? = some (major * 32 + SafeNet.Cbor.argInfo n) := by
+  refine ⟨?_, rfl⟩
+  simp only [SafeNet.Cbor.encodeArg, List.length_cons, SafeNet.Cbor.argBytes_length, SafeNet.Cbor.argLen]
+  repeat' split
+  all_goals rfl
+
+/-- tags, floats, `undefined`, `break`, the reserved additional-information values and indefinite lengths — none of which
+the encoder writes — are errors of the model decoder, whatever follows -/
+theorem cbor_unsupported_rejected (b : Nat) (rest : List Nat)
+    (h : (b < 192 ∧ 28 ≤ b % 32) ∨ (192 ≤ b ∧ b ≠ 0xf4 ∧ b ≠ 0xf5 ∧ b ≠ 0xf6)) :
+    SafeNet.Cbor.decode (b :: rest) = none := by
+  have hd : SafeNet.Cbor.decodeHead (b :: rest) = none := by
+    simp only [SafeNet.Cbor.decodeHead]
+    rcases h with ⟨h1, h2⟩ | ⟨h1, h2, h3, h4⟩
+    · rw [if_neg (by omega), if_neg (by omega), if_neg (by omega), if_pos h1]
+      simp only [SafeNet.Cbor.readArg]
+      rw [if_neg (by omega), if_neg (by omega), if_neg (by omega), if_neg (by omega), if_neg (by omega)]
+      rfl
+    · rw [if_neg h2, if_neg h3, if_neg h4, if_neg (by omega)]
+  unfold SafeNet.Cbor.decode
+  simp only [List.length_cons]
+  exact SafeNet.Cbor.decodeF_head_none _ _ hd
+
+/-- the codec the swarm is built with (`NodeBehaviour::request_response` in `ant-networking/src/driver.rs`, read by
+`rs2lean`) is the CBOR one: the byte-level model below is the model of what is on the wire -/
+theorem message_codec_is_cbor : messageCodec = .cbor := by decide
+
+/-- `PrettyPrintRecordKey` (inside `Error::RecordExists`) has hand-written serde impls: what `Serialize` writes and what
+`Deserialize` reads are the same data-model kind, and it is today's one — a sequence of `u8` (a CBOR array of small
+integers, NOT a byte string: `cbor4ii`, unlike `rmp_serde`, does not read one for the other). -/
+theorem pretty_key_kinds_agree : ppkSerKind = ppkDeKind ∧ ppkSerKind = .seq ∧ prettyKeyW = SafeNet.WireCbor.vecU8 ∧ prettyKeyR = prettyKeyW := by
+  refine ⟨by decide, by decide, rfl, rfl⟩
+
+theorem message_schemas_ok :
+    schemaOkC request = true ∧ schemaOkC (response prettyKeyW) = true ∧ schemaOkC cmd = true ∧ schemaOkC query = true ∧
+    schemaOkC (cmdResponse prettyKeyW) = true ∧ schemaOkC (queryResponse prettyKeyW) = true ∧
+    schemaOkC (protocolError prettyKeyW) = true ∧ schemaOkC networkAddress = true ∧ schemaOkC paymentQuote = true := by
+  refine ⟨?_, ?_, ?_, ?_, ?_, ?_, ?_, ?_, ?_⟩ <;> decide +kernel
+
+/-- **value_roundtrip_cbor**: a value `t` of the type described by schema `s`, written as `cbor4ii` does and read back, is `t`,
+and the bytes that followed are untouched -/
+theorem value_roundtrip_cbor (s : CSchema) (t : CTree) (rest : List Nat) (hs : schemaOkC s = true)
+    (hc : conformsC s t = true) (hw : treeWfC t = true) : readMsg s (writeMsg t ++ rest) = some (t, rest) :=
+  readMsg_writeMsg s t rest hs hc hw
+
+/-- **message_roundtrip_cbor**: every well-formed `Request` and every well-formed `Response` — all variants, with every
+payload the schemas admit: `GetStoreQuote { quote: Err(RecordExists(key)) }`, `GetReplicatedRecord`, `CheckNodeInProblem`,
+`Replicate { holder, keys }`, `PeerConsideredAsBad`, … — is read back as itself from its CBOR bytes by the reader's schema
+(which for `PrettyPrintRecordKey` is what its `Deserialize` impl expects), with trailing bytes preserved. -/
+theorem message_roundtrip_cbor :
+    (∀ t rest, conformsC request t = true → treeWfC t = true → readMsg request (writeMsg t ++ rest) = some (t, rest)) ∧
+    (∀ t rest, conformsC (response prettyKeyW) t = true → treeWfC t = true →
+      readMsg (response prettyKeyR) (writeMsg t ++ rest) = some (t, rest)) := by
+  constructor
+  · intro t rest hc hw; exact readMsg_writeMsg _ t rest message_schemas_ok.1 hc hw
+  · intro t rest hc hw
+    rw [pretty_key_kinds_agree.2.2.2]
+    exact readMsg_writeMsg _ t rest message_schemas_ok.2.1 hc hw
+
+/-- **message_truncated_rejected**: a proper prefix of a written message never reads as a complete value — of ANY type -/
+theorem message_truncated_rejected (s : CSchema) (t : CTree) (hw : treeWfC t = true) (n : Nat)
+    (hn : n < (writeMsg t).length) : readMsg s ((writeMsg t).take n) = none :=
+  readMsg_prefix_none s t hw n hn
+
+/-- the codec's reader cuts the stream at its size limit first (`io.take(REQUEST_SIZE_MAXIMUM)`): a message longer than the
+limit is an error (never a shorter message), a message within it is read whatever the limit is -/
+theorem oversize_message_rejected (cap : Nat) (s : CSchema) (t : CTree) (rest : List Nat) (hw : treeWfC t = true) :
+    (cap < (writeMsg t).length → readCapped cap s (writeMsg t ++ rest) = none) ∧
+    ((writeMsg t).length ≤ cap → schemaOkC s = true → conformsC s t = true →
+      ∃ r, readCapped cap s (writeMsg t ++ rest) = some (t, r)) := by
+  constructor
+  · intro h
+    unfold readCapped
+    rw [List.take_append_of_le_length (by omega)]
+    exact readMsg_prefix_none s t hw cap h
+  · intro h hs hc
+    unfold readCapped
+    rw [List.take_append, List.take_of_length_le h]
+    exact ⟨_, readMsg_writeMsg s t _ hs hc hw⟩
+
+/-- **message_decode_total**: the empty input and an unknown variant name (as a map key or as a bare string) are errors of
+the model reader.  The 1st conjunct is only the MODEL HALF of "never crashes" (the reader is a total Lean function: error
+or value); that the real codec returns `Err` and does not panic on arbitrary, truncated and unknown-kind bytes is
+established by the correspondence run (`cdec` lines under `catch_unwind`), not by this theorem. -/
+theorem message_decode_total :
+    (∀ s bs, readMsg s bs = none ∨ ∃ t r, readMsg s bs = some (t, r)) ∧
+    (∀ s, readMsg s [] = none) ∧
+    (∀ name payload, name ≠ nm "Cmd" → name ≠ nm "Query" →
+      ofC request (.map [(.text name, payload)]) = none ∧ ofC (response prettyKeyR) (.map [(.text name, payload)]) = none ∧
+      ofC request (.text name) = none) := by
+  refine ⟨?_, ?_, ?_⟩
+  · intro s bs
+    cases h : readMsg s bs with
+    | none => exact Or.inl rfl
+    | some p => exact Or.inr ⟨p.1, p.2, rfl⟩
+  · intro s; rfl
+  · intro name payload h1 h2
+    have e1 : (nm "Cmd" == name) = false := by
+      cases h : (nm "Cmd" == name) with
+      | false => rfl
+      | true => exact absurd (eq_of_beq h).symm h1
+    have e2 : (nm "Query" == name) = false := by
+      cases h : (nm "Query" == name) with
+      | false => rfl
+      | true => exact absurd (eq_of_beq h).symm h2
+    refine ⟨?_, ?_, ?_⟩
+    · simp [SafeNet.WireCbor.request, ofC, ofCVariant, e1, e2]
+    · simp [SafeNet.WireCbor.response, ofC, ofCVariant, e1, e2]
+    · simp [SafeNet.WireCbor.request, ofC, SafeNet.WireCbor.isUnitVariant, e1, e2]
+
+/-- two messages of one type with the same bytes are the same message -/
+theorem message_bytes_injective (s : CSchema) (t t' : CTree) (hs : schemaOkC s = true) (hc : conformsC s t = true)
+    (hc' : conformsC s t' = true) (hw : treeWfC t = true) (hw' : treeWfC t' = true) (h : writeMsg t = writeMsg t') :
+    t = t' := by
+  have e : toC t = toC t' := SafeNet.Cbor.encode_injective _ _ (toC_wf t hw) (toC_wf t' hw') h
+  have a := ofC_toC s t hs hc
+  rw [e, ofC_toC s t' hs hc'] at a
+  exact (Option.some.inj a).symm
+
+/-- **message_schemas_tied**: every enum schema of the CBOR model has exactly the variants of the Rust enum by NAME, each
+with the payload shape serde derives — struct variants with exactly the Rust FIELD NAMES in declaration order, which are
+the map keys on the wire — and every struct schema has exactly the struct's field names in order; all read from the
+current source by `rs2lean` (which refuses any `#[serde(..)]` attribute or hand-written impl on these types).  The newtype
+structs inside messages are one-field tuple structs, hence transparent. -/
+theorem message_schemas_tied :
+    enumTiedC enum_Request request = true ∧ enumTiedC enum_Response (response prettyKeyW) = true ∧
+    enumTiedC enum_Cmd cmd = true ∧ enumTiedC enum_Query query = true ∧
+    enumTiedC enum_CmdResponse (cmdResponse prettyKeyW) = true ∧
+    enumTiedC enum_QueryResponse (queryResponse prettyKeyW) = true ∧
+    enumTiedC enum_Error (protocolError prettyKeyW) = true ∧
+    enumTiedC enum_NetworkAddress networkAddress = true ∧ enumTiedC enum_RecordType recordType = true ∧
+    structTiedC struct_PaymentQuote paymentQuote = true ∧ structTiedC struct_QuotingMetrics quotingMetrics = true ∧
+    structTiedC struct_RegisterAddress registerAddress = true ∧ structTiedC struct_ScratchpadAddress scratchpadAddress = true ∧
+    struct_ChunkAddress.length = 1 ∧ struct_TransactionAddress.length = 1 ∧ struct_ChunkProof.length = 1 := by
+  refine ⟨?_, ?_, ?_, ?_, ?_, ?_, ?_, ?_, ?_, ?_, ?_, ?_, ?_, ?_, ?_, ?_⟩ <;> decide +kernel
+
+set_option maxRecDepth 8192 in
+/-- **message_wire_names_fixed**: the complete vocabulary of text strings a `Request` / a `Response` can carry as a variant
+name or a map key is the fixed one nodes use today (order of first appearance in the schema). -/
+theorem message_wire_names_fixed :
+    wireNames request = ["Cmd", "Replicate", "holder", "PeerId", "ChunkAddress", "TransactionAddress", "RegisterAddress",
+      "meta", "owner", "RecordKey", "ScratchpadAddress", "keys", "Chunk", "Scratchpad", "NonChunk", "PeerConsideredAsBad",
+      "detected_by", "bad_peer", "bad_behaviour", "Query", "GetStoreQuote", "key", "nonce", "difficulty",
+      "GetReplicatedRecord", "requester", "GetRegisterRecord", "GetChunkExistenceProof", "CheckNodeInProblem",
+      "GetClosestPeers", "num_of_peers", "range", "sign_result"] ∧
+    wireNames (response prettyKeyW) = ["Cmd", "Replicate", "Ok", "Err", "UserDataDirectoryNotObtainable",
+      "CouldNotObtainPortFromMultiAddr", "ParseRetryStrategyError", "CouldNotObtainDataDir", "ChunkDoesNotExist", "PeerId",
+      "ChunkAddress", "TransactionAddress", "RegisterAddress", "meta", "owner", "RecordKey", "ScratchpadAddress",
+      "RegisterNotFound", "RegisterAlreadyClaimed", "RegisterRecordNotFound", "holder", "key",
+      "ScratchpadHexDeserializeFailed", "ScratchpadCipherTextFailed", "ScratchpadCipherTextInvalid", "GetStoreQuoteFailed",
+      "QuoteGenerationFailed", "ReplicatedRecordNotFound", "RecordHeaderParsingFailed", "RecordParsingFailed",
+      "RecordExists", "PeerConsideredAsBad", "Query", "GetStoreQuote", "quote", "content", "timestamp", "secs_since_epoch",
+      "nanos_since_epoch", "quoting_metrics", "close_records_stored", "max_records", "received_payment_count", "live_time",
+      "network_density", "network_size", "rewards_address", "pub_key", "signature", "peer_address", "storage_proofs",
+      "CheckNodeInProblem", "reporter_address", "target_address", "is_in_trouble", "GetReplicatedRecord",
+      "GetRegisterRecord", "GetChunkExistenceProof", "GetClosestPeers", "target", "peers"] := by
+  constructor <;> decide +kernel
+
+/-- **message_wire_form**: for EVERY payload, a variant with payload is the one-entry map `{name: payload}` (`0xa1`, the
+name as a text string, the payload), a unit variant is the bare name, the unit value is the empty array `0x80`, `None` is
+`null` (`0xf6`), `Some(x)` is `x`, and a struct body opens with a map header counting its fields. -/
+theorem message_wire_form (name : List Nat) (t : CTree) (fs : List (List Nat × CTree)) :
+    writeMsg (.nvar name t) = 0xa1 :: (SafeNet.Cbor.encode (.text name) ++ writeMsg t) ∧
+    writeMsg (.uvar name) = SafeNet.Cbor.encode (.text name) ∧
+    writeMsg .unit = [0x80] ∧ writeMsg .none = [0xf6] ∧ writeMsg (.some t) = writeMsg t ∧
+    writeMsg (.bool true) = [0xf5] ∧ writeMsg (.bool false) = [0xf4] ∧
+    (writeMsg (.record fs)).take (SafeNet.Cbor.encodeArg 5 fs.length).length = SafeNet.Cbor.encodeArg 5 fs.length := by
+  refine ⟨?_, rfl, rfl, rfl, rfl, rfl, rfl, ?_⟩
+  · simp [writeMsg, toC, SafeNet.Cbor.encode, SafeNet.Cbor.encodePairs, SafeNet.Cbor.encodeHead, SafeNet.Cbor.encodeArg,
+      SafeNet.Cbor.argInfo, SafeNet.Cbor.argBytes]
+  · simp only [writeMsg, toC, SafeNet.Cbor.encode, SafeNet.Cbor.encodeHead, toCFields_length]
+    rw [List.take_append_of_le_length (Nat.le_refl _), List.take_length]
+
+/-- **message_opens_with_kind**: every `Request` and every `Response` starts with the bytes `a1 63 "Cmd"` or
+`a1 65 "Query"` — the message analogue of the record header's fixed prefix. -/
+theorem message_opens_with_kind (t : CTree)
+    (h : conformsC request t = true ∨ conformsC (response prettyKeyW) t = true) :
+    (∃ p, t = .nvar (nm "Cmd") p ∧ writeMsg t = [0xa1, 0x63, 67, 109, 100] ++ writeMsg p) ∨
+    (∃ p, t = .nvar (nm "Query") p ∧ writeMsg t = [0xa1, 0x65, 81, 117, 101, 114, 121] ++ writeMsg p) := by
+  have key : ∀ (a b : CSchema), (match a with | .absent => false | _ => true) = true →
+      (match b with | .absent => false | _ => true) = true →
+      conformsC (.enum [(nm "Cmd", a), (nm "Query", b)]) t = true →
+      (∃ p, t = .nvar (nm "Cmd") p) ∨ (∃ p, t = .nvar (nm "Query") p) := by
+    intro a b ha hb hc
+    cases t with
+    | nvar name p =>
+      simp only [conformsC, conformsCVariant] at hc
+      cases h1 : (nm "Cmd" == name) with
+      | true => exact Or.inl ⟨p, by rw [← eq_of_beq h1]⟩
+      | false =>
+        rw [h1] at hc
+        simp only at hc
+        cases h2 : (nm "Query" == name) with
+        | true => exact Or.inr ⟨p, by rw [← eq_of_beq h2]⟩
+        | false => rw [h2] at hc; simp at hc
+    | uvar name =>
+      exfalso
+      cases a <;> cases b <;> simp [conformsC, SafeNet.WireCbor.isUnitVariant] at hc ha hb
+    | _ => simp [conformsC] at hc
+  have cases2 : (∃ p, t = .nvar (nm "Cmd") p) ∨ (∃ p, t = .nvar (nm "Query") p) := by
+    rcases h with h | h
+    · exact key cmd query rfl rfl h
+    · exact key (cmdResponse prettyKeyW) (queryResponse prettyKeyW) rfl rfl h
+  rcases cases2 with ⟨p, rfl⟩ | ⟨p, rfl⟩
+  · exact Or.inl ⟨p, rfl, by rw [(message_wire_form _ p []).1]; rfl⟩
+  · exact Or.inr ⟨p, rfl, by rw [(message_wire_form _ p []).1]; rfl⟩
+
+end Messages
 
 /-! ## non-vacuity -/
 
@@ -382,7 +676,48 @@ example : fromRecord [0x91, 8, 0] = none := by decide
 example : encode (toVal (.nvar (nm "NonChunk") (.tup [.u 200, .u 1]))) =
     [0x81, 0xa8, 78, 111, 110, 67, 104, 117, 110, 107, 0x92, 0xcc, 200, 1] := by decide
 example : conforms recordType (.uvar (nm "Chunk")) = true := by decide
+example : conforms permissions (.nvar (nm "Writers") (.seq [])) = true := by decide
+example : conforms merkleNode (.tup [.seq [], .seq [.u 1, .u 2]]) = true := by decide
+example : conforms merkleNode (.tup [.seq [], .bytes [1, 2]]) = false := by decide
+example : payloadSchema .RegisterWithPayment = .tup [proofOfPayment, signedRegister] := rfl
 example : schemaOk recordType = true := by decide
+
+section MessageExamples
+open SafeNet.WireCbor
+
+/-- `Response::Cmd(CmdResponse::Replicate(Ok(())))` — the bytes the real codec writes (golden vector of the harness) -/
+example : writeMsg (.nvar (nm "Cmd") (.nvar (nm "Replicate") (.nvar (nm "Ok") .unit))) =
+    [0xa1, 0x63, 67, 109, 100, 0xa1, 0x69, 82, 101, 112, 108, 105, 99, 97, 116, 101, 0xa1, 0x62, 79, 107, 0x80] := by decide
+example : conformsC (response prettyKeyW) (.nvar (nm "Cmd") (.nvar (nm "Replicate") (.nvar (nm "Ok") .unit))) = true := by decide
+example : readMsg (response prettyKeyR)
+    [0xa1, 0x63, 67, 109, 100, 0xa1, 0x69, 82, 101, 112, 108, 105, 99, 97, 116, 101, 0xa1, 0x62, 79, 107, 0x80, 7] =
+    some (.nvar (nm "Cmd") (.nvar (nm "Replicate") (.nvar (nm "Ok") .unit)), [7]) := rfl
+example : readMsg (response prettyKeyR)
+    [0xa1, 0x63, 67, 109, 100, 0xa1, 0x69, 82, 101, 112, 108, 105, 99, 97, 116, 101, 0xa1, 0x62, 79, 107] = none := by decide
+/-- `Request::Query(Query::GetStoreQuote { key: RecordKey(b""), nonce: Some(24), difficulty: 256 })` -/
+example : writeMsg (.nvar (nm "Query") (.nvar (nm "GetStoreQuote") (.record [(nm "key", .nvar (nm "RecordKey") (.bytes [])),
+      (nm "nonce", .some (.u 24)), (nm "difficulty", .u 256)]))) =
+    [0xa1, 0x65, 81, 117, 101, 114, 121, 0xa1, 0x6d, 71, 101, 116, 83, 116, 111, 114, 101, 81, 117, 111, 116, 101, 0xa3,
+     0x63, 107, 101, 121, 0xa1, 0x69, 82, 101, 99, 111, 114, 100, 75, 101, 121, 0x40,
+     0x65, 110, 111, 110, 99, 101, 0x18, 24, 0x6a, 100, 105, 102, 102, 105, 99, 117, 108, 116, 121, 0x19, 1, 0] := by decide
+example : conformsC request (.nvar (nm "Query") (.nvar (nm "GetStoreQuote") (.record [(nm "key", .nvar (nm "RecordKey") (.bytes [])),
+      (nm "nonce", .some (.u 24)), (nm "difficulty", .u 256)]))) = true := by decide
+/-- a field under another name, fields in another order and an unknown variant are not values of the type -/
+example : conformsC request (.nvar (nm "Query") (.nvar (nm "GetStoreQuote") (.record [(nm "key", .nvar (nm "RecordKey") (.bytes [])),
+      (nm "n", .none), (nm "difficulty", .u 0)]))) = false := by decide
+example : conformsC request (.nvar (nm "Query") (.nvar (nm "GetStoreQuote") (.record [(nm "nonce", .none),
+      (nm "key", .nvar (nm "RecordKey") (.bytes [])), (nm "difficulty", .u 0)]))) = false := by decide
+example : conformsC request (.nvar (nm "Query") (.nvar (nm "GetQuote") .unit)) = false := by decide
+/-- `Error::RecordExists(key)`: the key travels as an array of small integers, and a byte string is not read for it -/
+example : writeMsg (.nvar (nm "RecordExists") (.seq [.u 1, .u 0x18, .u 0xff])) =
+    [0xa1, 0x6c, 82, 101, 99, 111, 114, 100, 69, 120, 105, 115, 116, 115, 0x83, 1, 0x18, 0x18, 0x18, 0xff] := by decide
+example : ofC (protocolError prettyKeyR) (.map [(.text (nm "RecordExists"), .bytes [1, 2])]) = none := by decide
+example : SafeNet.Cbor.decode [0x9f, 0xff] = none := by decide
+example : SafeNet.Cbor.decode [0xc1, 0] = none := by decide
+example : SafeNet.Cbor.decode [0x19, 0, 5, 9] = some (.uint 5, [9]) := rfl
+example : SafeNet.Cbor.encode (.uint 5) = [5] := by decide
+
+end MessageExamples
 
 end SafeNet.Props.C12
 
@@ -417,3 +752,25 @@ end SafeNet.Props.C12
 #print axioms SafeNet.Props.C12.variant_names_separate
 #print axioms SafeNet.Props.C12.wire_stable
 #print axioms SafeNet.Props.C12.wire_prefixes
+#print axioms SafeNet.Props.C12.unknown_tag_every_spelling
+#print axioms SafeNet.Props.C12.record_schemas_ok
+#print axioms SafeNet.Props.C12.record_roundtrip_every_kind
+#print axioms SafeNet.Props.C12.cbor_decode_encode
+#print axioms SafeNet.Props.C12.cbor_prefix_rejected
+#print axioms SafeNet.Props.C12.cbor_encode_injective
+#print axioms SafeNet.Props.C12.cbor_encode_append_injective
+#print axioms SafeNet.Props.C12.cbor_shortest_argument
+#print axioms SafeNet.Props.C12.cbor_unsupported_rejected
+#print axioms SafeNet.Props.C12.message_codec_is_cbor
+#print axioms SafeNet.Props.C12.pretty_key_kinds_agree
+#print axioms SafeNet.Props.C12.message_schemas_ok
+#print axioms SafeNet.Props.C12.value_roundtrip_cbor
+#print axioms SafeNet.Props.C12.message_roundtrip_cbor
+#print axioms SafeNet.Props.C12.message_truncated_rejected
+#print axioms SafeNet.Props.C12.oversize_message_rejected
+#print axioms SafeNet.Props.C12.message_decode_total
+#print axioms SafeNet.Props.C12.message_bytes_injective
+#print axioms SafeNet.Props.C12.message_schemas_tied
+#print axioms SafeNet.Props.C12.message_wire_names_fixed
+#print axioms SafeNet.Props.C12.message_wire_form
+#print axioms SafeNet.Props.C12.message_opens_with_kind
